@@ -159,15 +159,29 @@ int main(int argc, char **argv)
 			}
 			if (nzc < target || nzd < target) vh_harness_fail("could not find enough leading-zero keys for %s", CURVES[c]);
 		}
-		for (size_t i = 0; i < 4; i++) {
+		for (size_t i = 0; i < 10; i++) {
 			vh_key_t k;
 			char spec[32], name[64], *j;
-			static const char *ALG[] = { "HS256", "HS384", "HS512", "HS256" };
-			snprintf(spec, sizeof(spec), "oct:%d", OCTS[i]);
+			static const char *ALG[] = { "HS256", "HS384", "HS512", "HS256", "HS256", "HS384", "HS512", "HS256", "HS256", "HS256" };
+			static const int LEN[] = { 32, 48, 64, 100, 32, 48, 64, 33, 40, 32 };
+			/* shapes a text-minded tool could mangle: trailing newline, CR, NUL, space; leading newline; embedded NUL */
+			static const char *SHAPE[] = { "", "", "", "", "_trailnl", "_trailcr", "_trailnul", "_trailsp", "_leadnl", "_midnul" };
+			snprintf(spec, sizeof(spec), "oct:%d", LEN[i]);
 			vh_key_gen(&k, spec, &rng);
 			/* binary key files that OpenSSL certainly cannot parse as a key: random bytes with a non-ASCII first byte */
 			k.oct[0] |= 0x80;
-			snprintf(name, sizeof(name), "oct_%d", OCTS[i]);
+			for (size_t q = 1; q < k.octlen; q++) if (k.oct[q] == 0x0a || k.oct[q] == 0x0d || k.oct[q] == 0) k.oct[q] = 0x55;
+			switch (i) {
+			case 4: k.oct[k.octlen - 1] = 0x0a; break;
+			case 5: k.oct[k.octlen - 1] = 0x0d; break;
+			case 6: k.oct[k.octlen - 1] = 0x00; break;
+			case 7: k.oct[k.octlen - 1] = 0x20; break;
+			case 8: k.oct[0] = 0x0a; k.oct[1] |= 0x80; break;
+			case 9: k.oct[k.octlen / 2] = 0x00; break;
+			default: break;
+			}
+			(void)OCTS;
+			snprintf(name, sizeof(name), "oct_%d%s", LEN[i], SHAPE[i]);
 			write_file(dir, name, ".bin", k.oct, k.octlen);
 			j = vh_key_jwk(&k, 1, NULL, NULL, NULL); write_file(dir, name, ".jwk.json", j, strlen(j)); free(j);
 			j = vh_key_jwk(&k, 1, ALG[i], NULL, NULL); write_file(dir, name, "_alg.jwk.json", j, strlen(j)); free(j);
